@@ -12,11 +12,11 @@ from verif.checks.c12 import preempt_case
 from verif.checks.c06 import gen_case
 
 ID = "C07"
-RULE = ("Hypothesis-generated cases (simulation case x history of 1-3 unrelated simulations x two hash seeds) executed in three separate "
-        "interpreter processes: A with PYTHONHASHSEED=a, B with PYTHONHASHSEED=b after the history in the same process, C running the "
-        "target twice in one process; the canonicalised tick-by-tick logs (arrivals with full pipeline fingerprints, decisions, "
+RULE = ("Hypothesis-generated cases (simulation case x history of 1-3 unrelated simulations x two hash seeds) executed in two separate "
+        "interpreter processes: one with PYTHONHASHSEED=a running the target twice, one with PYTHONHASHSEED=b running the history "
+        "and then the target; the canonicalised tick-by-tick logs (arrivals with full pipeline fingerprints, decisions, "
         "results; container and pipeline identifiers renumbered by first appearance) and the statistics must be identical across "
-        "A, B, C1, C2. In-process: WorkloadGenerator fingerprints over >= 50 arrival events are identical when only scheduler / "
+        "all three runs. In-process: WorkloadGenerator fingerprints over >= 50 arrival events are identical when only scheduler / "
         "executor / duration parameters differ and different when only the seed differs. Non-trivial = paired runs with >= 1 "
         "suspension or retry and a != b, or a generator pair; distinct = sha1 of the case JSON")
 ASSUMPTIONS = [
@@ -28,7 +28,32 @@ SCHEDS = ["priority", "naive", "priority-pool", "overbook", "starter"]
 
 
 def plan(tier):
-    return [{"kind": "hypothesis", "examples": 96 if tier == "quick" else 1600}]
+    return [{"kind": "hypothesis", "examples": 128 if tier == "quick" else 2400}]
+
+
+@st.composite
+def branchy_case(draw):
+    """single-operator containers, fan-out DAGs, few CPUs, some operators that OOM: failed and newly ready operators of one
+    pipeline appear in the same round, where the order in which the package lists them matters"""
+    sched = draw(st.sampled_from(["priority", "overbook", "priority"]))
+    tps = draw(st.sampled_from([10, 5, 2, 20]))
+    ram = draw(st.sampled_from([100, 30, 64]))
+    params = {"scheduler_algo": sched, "ticks_per_second": tps, "duration": (draw(st.sampled_from([60, 100, 40])) + 0.5) / tps,
+              "num_pools": draw(st.sampled_from([1, 2])), "cpus_per_pool": draw(st.sampled_from([2, 1, 3, 4])), "ram_gb_per_pool": ram,
+              "multi_operator_containers": False, "allow_memory_overcommit": sched == "overbook", "random_seed": 0,
+              "interactive_prob": 0.3, "query_prob": 0.1, "batch_prob": 0.6}
+    arrivals = []
+    for _ in range(draw(st.integers(2, 5))):
+        n = draw(st.integers(3, 7))
+        ops = []
+        for i in range(n):
+            parents = [] if i == 0 else sorted(set(draw(st.lists(st.integers(0, i - 1), min_size=1, max_size=2))))
+            big = draw(st.integers(0, 3)) == 0
+            ops.append({"parents": parents, "segs": [{"cpu": (draw(st.integers(0, 3)) + 0.5) / tps, "law": "const",
+                                                       "mem": round(ram * (0.15 if big else 0.02), 6), "read": (draw(st.integers(0, 2)) + 0.25) * 20.0 / tps}]})
+        arrivals.append([draw(st.integers(0, 3)), {"prio": draw(st.sampled_from([3, 2, 1])), "ops": ops}])
+    arrivals.sort(key=lambda a: a[0])
+    return {"params": params, "arrivals": arrivals}
 
 
 @st.composite
@@ -47,7 +72,7 @@ def case(draw, tier):
                  "duration": draw(st.sampled_from([1, 50, 10000])), "rest_poll_interval": 0.25}
         return {"kind": "genpair", "workload_params": wl, "other": other}
     target = draw(st.one_of(sim_case(SCHEDS, "quick"), preempt_case("quick"), preempt_case("quick"), preempt_case("quick"),
-                            gen_case("quick"), sim_case(["overbook", "priority"], "quick")))
+                            gen_case("quick"), sim_case(["overbook", "priority"], "quick"), branchy_case(), branchy_case()))
     if target.get("arrivals") and draw(st.integers(0, 2)) == 0:
         # twins: identical pipelines arriving together (equal OOM scores, equal suspension lengths): ties are where
         # identifier- or hash-order dependence can show
@@ -135,9 +160,10 @@ def run_case(spec):
         out.nontrivial = True
         return out
     target = spec["target"]
-    a = child({"target": target, "repeat": 1}, spec["hash_a"])
-    b = child({"history": spec["history"], "target": target, "repeat": 1}, spec["hash_b"])
+    # process 1 (hash seed a): the target twice in one process; process 2 (hash seed b): the target after a history
     c = child({"target": target, "repeat": 2}, spec["hash_a"])
+    b = child({"history": spec["history"], "target": target, "repeat": 1}, spec["hash_b"])
+    a = [c[0]]
     out.label("sched_" + target["params"]["scheduler_algo"])
     log = a[0]
     nsus = sum(len(t[1]) for t in log["ticks"])
@@ -148,7 +174,7 @@ def run_case(spec):
         out.label("had_failure")
     out.extra_evals = len(log["ticks"])
     for name, other in (("fresh process with another hash seed after a history of other simulations", b[0]),
-                        ("first of two runs in one process", c[0]), ("second of two runs in one process", c[1])):
+                        ("second of two runs in one process", c[1])):
         d = first_diff(log, other)
         if d:
             out.problem("C07:runs-differ", f"reference run vs {name}: {d}")
